@@ -158,6 +158,16 @@ def branch_polarity(cond):
                 if (op, r[1]) in (("<", 1), ("<=", 0)):
                     cond = ("cmp", "==", l, _LEN0)
                     continue
+                # a length is an integer: every ordering test on it is `len(x) > k` or its exact complement
+                if op == ">=" and r[1] >= 2:
+                    cond = ("cmp", ">", l, ("const", r[1] - 1))
+                    continue
+                if op == "<=" and r[1] >= 1:
+                    cond, swap = ("cmp", ">", l, r), not swap
+                    continue
+                if op == "<" and r[1] >= 2:
+                    cond, swap = ("cmp", ">", l, ("const", r[1] - 1)), not swap
+                    continue
         break
     return cond, swap
 
@@ -1330,6 +1340,11 @@ def index(v, k):
             and v[2][1] in (("const", None), ("const", 0)) and v[2][3] in (("const", None), ("const", 1))
             and v[2][2][0] == "const" and isinstance(v[2][2][1], int) and k[1] < v[2][2][1]):
         return ("sub", v[1], k)
+    if (k[0] == "const" and isinstance(k[1], int) and not isinstance(k[1], bool) and k[1] >= 0 and v[0] == "call" and v[1] == ("global", "numpy.split")
+            and len(v[2]) == 2 and v[2][1][0] in ("list", "tuple") and k[1] <= len(v[2][1][1]) and dict(v[3]).get("axis", ("const", 0)) == ("const", 0)):
+        # numpy.split(x, [a, b])[i] are the consecutive row blocks x[:a], x[a:b], x[b:]
+        cuts = (("const", None),) + tuple(v[2][1][1]) + (("const", None),)
+        return ("sub", v[2][0], ("slice", cuts[k[1]], cuts[k[1] + 1], ("const", None)))
     return ("sub", v, k)
 
 
